@@ -378,6 +378,14 @@ fn caller(p: &Plan) -> Obs {
                 }
                 rb
             }
+            // (no draw) a session whose own overall timeout is much shorter, set *before* its read timeout; the
+            // request then gives itself the long one: each setting has the value that was set last for it,
+            // whatever the other one was at the time
+            _ if t_dur.is_some() && !p.t_duration_max && (p.r_ms + p.body.payload.len() as u64) % 5 == 2 => {
+                session.timeout(Duration::from_millis(7));
+                session.read_timeout(Duration::from_millis(p.r_ms));
+                session.get(&url).timeout(t_dur.unwrap())
+            }
             _ => {
                 let mut rb = attohttpc::get(&url).read_timeout(Duration::from_millis(p.r_ms));
                 if let Some(t) = t_dur {
@@ -541,6 +549,9 @@ fn run(p: &Plan, ctx: &RunCtx) -> bodyx::Ran<Obs> {
     };
     let tls_log = Arc::new(Mutex::new(crate::tlspeer::TlsLog::default()));
     let hs_stall = p.tls_handshake_stall;
+    // (no draw) the drip may already start inside the TLS handshake: the deadline counts from the start of
+    // send(), whatever layer the bytes that trickle in belong to
+    let hs_drip_ns: u64 = if p.fam == Family::Drip && p.route != Route::Plain && p.k % 3 == 0 { p.drip_delta_ms.max(1) * NS_PER_MS } else { 0 };
     let mk_tls = {
         let mk_http = mk_http.clone();
         let tls_log = tls_log.clone();
@@ -549,7 +560,9 @@ fn run(p: &Plan, ctx: &RunCtx) -> bodyx::Ran<Obs> {
                 // accepts the TCP connection (or the tunnel) and never answers the ClientHello
                 Box::new(crate::peers::RawPeer { script: Script::default(), on_first_bytes: true, started: false, received: Arc::new(Mutex::new(Vec::new())), faults: None, marker: None, opaque: true })
             } else {
-                Box::new(crate::tlspeer::TlsPeer::new("good", mk_http(), tls_log.clone(), conn))
+                let mut peer = crate::tlspeer::TlsPeer::new("good", mk_http(), tls_log.clone(), conn);
+                peer.handshake_drip_ns = hs_drip_ns;
+                Box::new(peer)
             }
         }
     };
